@@ -45,6 +45,7 @@ Judge(c, D) ==
               C09 |-> IF Want("C09") THEN P!Failing(P!C09_Clauses(cfg, D)) ELSE {},
               C11 |-> IF Want("C11") THEN P!Failing(P!C11_Clauses(cfg, D)) ELSE {},
               C02 |-> IF Want("C02") THEN P!Failing(P!C02B_Clauses(cfg, D)) ELSE {},
+              C03 |-> IF Want("C03") THEN P!Failing(P!C03B_Clauses(cfg, D)) ELSE {},
               C04 |-> IF Want("C04") THEN P!Failing(P!C04B_Clauses(cfg, D)) ELSE {},
               C17 |-> IF Want("C17") THEN P!Failing(P!C17B_Clauses(cfg, D)) ELSE {},
               C18 |-> IF Want("C18") THEN P!Failing(P!C18B_Clauses(cfg, D)) ELSE {}]} :
